@@ -14,13 +14,16 @@ LEAN_EXES = ["model_c18"]
 REQUIRED_THEOREMS = [
     "TapkeeVerif.QuadTree.each_point_once",
     "TapkeeVerif.QuadTree.isCorrect_true",
-    "TapkeeVerif.QuadTree.mass_and_com_refuted",
-    "TapkeeVerif.QuadTree.mass_and_com_partial",
+    "TapkeeVerif.QuadTree.mass_and_com",
     "TapkeeVerif.QuadTree.root_mass_and_com",
+    "TapkeeVerif.QuadTree.children_masses_add",
+    "TapkeeVerif.QuadTree.mass_witness",
     "TapkeeVerif.QuadTree.forces_theta0_exact",
     "TapkeeVerif.QuadTree.forces_exact_below_threshold",
     "TapkeeVerif.QuadTree.order_independent_observables",
     "TapkeeVerif.QuadTree.fuel_suffices",
+    "TapkeeVerif.QuadTree.fuel_irrelevant",
+    "TapkeeVerif.QuadTree.summary_criterion_sqrt",
 ]
 
 # theta in {0, 2^-20, 0.1, 0.5, 1, 2}; 0.1 is the double nearest to 0.1 written as an exact dyadic
@@ -377,7 +380,7 @@ def corpus_cases():
         for f in sorted(os.listdir(cdir)):
             for l in open(os.path.join(cdir, f)):
                 l = l.strip()
-                if l.startswith("quad "):
+                if l.startswith("quad ") and not l.startswith("#"):
                     out.append(parse_case_line(l))
     return out
 
